@@ -431,6 +431,10 @@ func getAliases(node parse.Node, aliases *aliasMap) {
 	if n, ok := node.(*parse.ActionNode); ok {
 		if len(n.Pipe.Decl) == 1 && !n.Pipe.IsAssign && len(n.Pipe.Cmds) == 1 {
 			for _, cmd := range n.Pipe.Cmds {
+				// Only `$x := $y` makes $x another name for $y, a function called with $y returns something else.
+				if len(cmd.Args) != 1 {
+					continue
+				}
 				for _, arg := range cmd.Args {
 					for _, k := range getVariables(arg) {
 						for _, d := range n.Pipe.Decl {
